@@ -378,7 +378,7 @@ func fillGapWild(col []byte, wild byte) {
 }
 
 // tiedWithSpecials: a tied alignment with an even number of rows that is guaranteed to hold, after
-// its drawn columns, one column of each special kind: gaps and wildcards in equal numbers, gaps
+// its drawn columns, several columns of each special kind: gaps and wildcards in equal numbers, gaps
 // only, wildcards only, a two-way and a four-way letter tie, gaps tied with a letter
 func tiedWithSpecials(t *rapid.T, aa bool) []gen.Row {
 	rows := tiedAlignment(t, aa, 2, 10, 4, 30)
@@ -406,8 +406,22 @@ func tiedWithSpecials(t *rapid.T, aa bool) []gen.Row {
 			extra[5][i] = letters[2]
 		}
 	}
-	// drawn order of the special columns
-	for _, k := range gen.Perm(t, len(extra), "specials") {
+	// drawn order of the special columns. Every kind comes several times (the gap/wildcard tie six
+	// times, the others three times): a tie decided by the iteration order of a small Go map comes
+	// out the other way in one execution out of eight only, so one such site would be seen by six
+	// executions with probability 0.55; the sites are decided independently of each other
+	var order []int
+	for k := range extra {
+		copies := 3
+		if k == 0 {
+			copies = 6
+		}
+		for c := 0; c < copies; c++ {
+			order = append(order, k)
+		}
+	}
+	for _, j := range gen.Perm(t, len(order), "specials") {
+		k := order[j]
 		for i := range rows {
 			rows[i].Seq += string(extra[k][i])
 		}
